@@ -484,6 +484,7 @@ class Decider:
         self.ctx = Ctx(rec, shared_vars)
         self.stats = {'queries': 0, 'solver_s': 0.0, 'lra': 0, 'relax': 0, 'nra': 0, 'zero_residual': 0}
         self._pc_lin = None; self._pc_full = None; self._pc_lin_s = None; self._pc_full_s = None; self.strict = False
+        self.crosscheck = int(os.environ.get('FPSYM_CROSSCHECK', '0'))
 
     def pc_lin(self):
         if self.strict:
@@ -504,6 +505,23 @@ class Decider:
         s.set('timeout', self.timeout_ms)
         s.add(*cs)
         t = time.time(); r = s.check(); self.stats['solver_s'] += time.time() - t; self.stats['queries'] += 1
+        if self.crosscheck > 0 and r in (z3.sat, z3.unsat):
+            # second opinion: the same query in SMT-LIB2 to cvc5 (a sample of the queries of every configuration in the thorough tier)
+            self.crosscheck -= 1
+            try:
+                import subprocess, tempfile
+                with tempfile.NamedTemporaryFile('w', suffix='.smt2', dir=os.environ.get('FPSYM_TMP', None), delete=False) as f:
+                    f.write('(set-logic ALL)\n' + s.to_smt2()); fn = f.name
+                rr = subprocess.run(['/usr/bin/cvc5', '--tlimit=20000', fn], capture_output=True, text=True, timeout=40)
+                os.remove(fn)
+                ans = rr.stdout.strip().split('\n')[0] if rr.stdout.strip() else 'error'
+                self.stats['cvc5_queries'] = self.stats.get('cvc5_queries', 0) + 1
+                if ans in ('sat', 'unsat'):
+                    if ans == str(r): self.stats['cvc5_agree'] = self.stats.get('cvc5_agree', 0) + 1
+                    else: self.stats['cvc5_disagree'] = self.stats.get('cvc5_disagree', 0) + 1
+                else: self.stats['cvc5_unknown'] = self.stats.get('cvc5_unknown', 0) + 1
+            except Exception:
+                self.stats['cvc5_unknown'] = self.stats.get('cvc5_unknown', 0) + 1
         return r, s
 
     def model_inputs(self, s):
@@ -720,6 +738,7 @@ class Explorer:
         handle(rec, info, dec, k, dict(inputs))
         if dec is not None:
             for key in ('queries', 'solver_s', 'lra', 'relax', 'nra', 'zero_residual'): self.stats[key] += dec.stats[key]
+            for key in ('cvc5_queries', 'cvc5_agree', 'cvc5_disagree', 'cvc5_unknown'): self.stats[key] = self.stats.get(key, 0) + dec.stats.get(key, 0)
         self.paths.append({'inputs': dict(inputs), 'atoms': len(rec.pc) if rec is not None else None, 'rc': info['rc']})
         return rec, info, dec
 
